@@ -3,6 +3,7 @@ package sim
 import (
 	"crypto/rand"
 	"crypto/sha256"
+	"encoding/base64"
 	"encoding/hex"
 	"encoding/json"
 	"fmt"
@@ -92,6 +93,7 @@ type Run struct {
 	entFiredSeen  int
 	keyParts      map[string]string
 	shortSecret   bool
+	writeMark     int
 	branching     []int    // branching factor at each scheduling decision of the concurrent steps
 	schedules     []string // storage-call schedules of the concurrent steps
 	Fault         *faultState
@@ -392,7 +394,10 @@ func (r *Run) specByID(id string) *ClientSpec {
 // presenter resolves which client acts: st.C<0 means the credential's rightful client.
 func (r *Run) presenter(st Step, owner string) *ClientSpec {
 	if st.C < 0 {
-		return r.specByID(owner)
+		if cs := r.specByID(owner); cs != nil {
+			return cs
+		}
+		return r.clientSpec(0) // grants not bound to a client (jwt-bearer with skipped client authentication)
 	}
 	return r.clientSpec(st.C)
 }
@@ -405,22 +410,77 @@ func authValid(cs *ClientSpec, variant string) bool {
 	if cs.Public {
 		// public clients are identified without a secret: whatever secret accompanies the id is irrelevant
 		switch variant {
-		case "none", "unknown_client", "malformed_header":
+		case "none", "unknown_client", "bad_urlencoding":
 			return false
 		}
+		if strings.HasPrefix(variant, "assert:") {
+			return false
+		}
+		if cs.OIDC && variant == "bad_secret" {
+			return false // a client_secret in the body is the client_secret_post method, which a method-"none" registration does not permit
+		}
 		return !(cs.OIDC && cs.AuthMethod != "none" && cs.AuthMethod != "")
+	}
+	if strings.HasPrefix(variant, "assert:") {
+		return false // decided by the caller with the assertion-variant table (authValidRun)
+	}
+	if cs.OIDC && cs.AuthMethod != "client_secret_basic" && cs.AuthMethod != "client_secret_post" {
+		// private_key_jwt: only a valid assertion ("ok" sends one); client_secret_jwt / unknown methods: nothing is valid
+		return cs.AuthMethod == "private_key_jwt" && (variant == "" || variant == "ok")
 	}
 	switch variant {
 	case "", "ok":
 		return true
 	case "rotated":
-		return len(cs.Rotated) > 0
+		return true // a rotated secret when one exists, the current one otherwise
 	case "post":
 		return !cs.OIDC || cs.AuthMethod == "client_secret_post"
 	case "basic":
 		return !cs.OIDC || cs.AuthMethod == "client_secret_basic"
+	case "both":
+		return !cs.OIDC
 	}
 	return false
+}
+
+// authOK: authValid plus the private_key_jwt assertion variants (which need the run's clock).
+func (r *Run) authOK(cs *ClientSpec, variant string) bool {
+	if strings.HasPrefix(variant, "assert:") {
+		if cs == nil || !cs.OIDC || cs.AuthMethod != "private_key_jwt" {
+			return false
+		}
+		_, verdict := r.clientAssertVariant(cs, variant[7:])
+		return verdict == Must
+	}
+	return authValid(cs, variant)
+}
+
+// tokenWrites: writes to code/token tables made since the current request started (C10: a rejected request makes none).
+func (r *Run) tokenWrites() []string {
+	var out []string
+	for _, w := range r.W.Store.WriteLog[r.writeMark:] {
+		if strings.HasPrefix(w, "SetClientAssertionJWT") || strings.HasPrefix(w, "MarkJWTUsedForTime") {
+			continue // the jti memory is not a token or code table
+		}
+		out = append(out, w)
+	}
+	return out
+}
+
+func (r *Run) noWrites(kind, desc string) {
+	if ws := r.tokenWrites(); len(ws) > 0 {
+		names := map[string]bool{}
+		for _, w := range ws {
+			names[strings.Fields(w)[0]] = true
+		}
+		var ns []string
+		for n := range names {
+			ns = append(ns, n)
+		}
+		sort.Strings(ns)
+		r.violate("C10", "rejected-request-wrote-tokens", kind+":"+strings.Join(ns, ","), "%s: client authentication was invalid but the request wrote to token/code tables: %v", desc, ns)
+	}
+	r.probe("c10-no-write-checked")
 }
 
 // applyAuth adds the client's credentials to the request according to the variant.
@@ -455,7 +515,24 @@ func (r *Run) applyAuth(cs *ClientSpec, variant string, form url.Values) *Basic 
 		form.Set("client_secret", secret)
 		return nil
 	case "malformed_header":
+		if cs.Public {
+			form.Set("client_id", cs.ID) // an unparsable Authorization header counts as absent: the body identifies the public client
+		}
 		return &Basic{Raw: "Basic !!!not-base64!!!"}
+	case "bad_urlencoding":
+		return &Basic{Raw: "Basic " + base64.StdEncoding.EncodeToString([]byte(cs.ID+":%zz"+secret))}
+	}
+	if strings.HasPrefix(variant, "assert:") {
+		over, _ := r.clientAssertVariant(cs, variant[7:])
+		key := cs
+		if cs.KeyName == "" { // a client without registered keys presenting an assertion signed with somebody's key
+			c2 := *cs
+			c2.KeyName = "rsa3"
+			key = &c2
+		}
+		form.Set("client_assertion_type", "urn:ietf:params:oauth:client-assertion-type:jwt-bearer")
+		form.Set("client_assertion", r.clientAssertion(key, over))
+		return nil
 	}
 	if cs.Public {
 		form.Set("client_id", cs.ID)
